@@ -856,6 +856,9 @@ impl DirectAddrUpdateState {
                 debug!("direct addr update done ({:?})", why);
                 #[cfg(feature = "verif-hooks")]
                 iroh_base::verif_hooks::event("netreport:run_finish", &format!("{why:?}"));
+                // Release the reporter before signalling: the actor reacts to the signal with
+                // `try_run`, which must be able to take the lock, or a wanted update is lost.
+                drop(net_reporter);
                 run_done.send(()).await.ok();
                 #[cfg(feature = "verif-hooks")]
                 iroh_base::verif_hooks::point_async("direct_addr:after_done", "").await;
